@@ -442,6 +442,7 @@ def run(chk):
     nodeadd.run(chk)
     from lib import emitsiblings
     emitsiblings.run(chk)
+    emitsiblings.run_error_codes(chk)
 
     return chk.finish(
         level="other",
